@@ -105,6 +105,9 @@ func (ex *Exec) call(c *ast.CallExpr) []Term {
 	ex.note("call of func value " + exprString(c.Fun) + ": results and reachable state havoc")
 	e := newEffects()
 	e.FuncValues = true
+	if t := ex.info.TypeOf(c.Fun); t != nil {
+		e.Calls["$fv:"+canonType(t, nil)] = true
+	}
 	ex.P.closeEffects(e, ex.F.Name)
 	ex.havocEffects(e)
 	return ex.freshResults(ex.info.TypeOf(c), "fv")
